@@ -48,6 +48,19 @@ function "uf_tags" {
   params = [o]
   result = o.tags[*]
 }
+function "uf_all" {
+  params = []
+  result = c_xs[*].v
+}
+function "uf_alln" {
+  params = []
+  result = [for y in flatten(c_xs[*].ys[*].w) : upper(y)]
+}
+function "uf_var" {
+  params         = [a]
+  variadic_param = rest
+  result         = concat(a[*].v, rest[*])
+}
 function "uf_cb" {
   params = [l]
   result = [for s in l[*].v : cb_str(s)]
@@ -171,7 +184,7 @@ func (g *egen) strList(d int) string {
 	case 18:
 		return fmt.Sprintf("try(%s, [])", g.strList(d-1))
 	case 19:
-		return fmt.Sprintf("uf_cb(%s)", g.outerList(d-1))
+		return r.pick(fmt.Sprintf("uf_cb(%s)", g.outerList(d-1)), "uf_all()", "uf_alln()", fmt.Sprintf("uf_var(%s, %s)", g.outerList(d-1), g.str(d-1)))
 	case 20:
 		return fmt.Sprintf("%s[*].ys[%s][%s]", g.outerList(d-1), g.idx(d-1), `"w"`)
 	default:
@@ -317,6 +330,9 @@ func genBody(r *rnd, prefix string, depth int) BodyM {
 	g := &egen{r: r}
 	var b BodyM
 	na := 1 + r.n(4)
+	if r.chance(1, 4) {
+		na += 2 + r.n(3)
+	}
 	for i := 0; i < na; i++ {
 		b.Attrs = append(b.Attrs, AttrM{Name: fmt.Sprintf("%sa%d", prefix, i), Expr: g.anyExpr(depth)})
 	}
@@ -550,7 +566,11 @@ func genCase(seed uint64, profile string) *Case {
 		if r.chance(2, 5) {
 			syn = "json"
 		}
-		c.Files = append(c.Files, FileM{Syntax: syn, Body: genBody(r, fmt.Sprintf("f%d", i), depth)})
+		fm := FileM{Syntax: syn, Body: genBody(r, fmt.Sprintf("f%d", i), depth)}
+		if syn == "json" && r.chance(1, 2) {
+			fm.JSONArray = 1 + r.n(2)
+		}
+		c.Files = append(c.Files, fm)
 	}
 	c.SpecSeed = r.u64()
 	c.Shared = genShared(r)
@@ -693,7 +713,10 @@ func jstr(s string) string {
 
 func jexpr(e string) string { return jstr("${" + e + "}") }
 
-func renderJSON(b BodyM) string {
+// renderJSON renders a body as a JSON object, or (arr > 0) as an array of
+// objects among which the properties are distributed — both are valid JSON
+// syntax bodies.
+func renderJSON(b BodyM, arr int) string {
 	var parts []string
 	for _, a := range b.Attrs {
 		parts = append(parts, jstr(a.Name)+": "+jexpr(a.Expr))
@@ -717,14 +740,14 @@ func renderJSON(b BodyM) string {
 				}
 				dp = append(dp, `"labels": [`+strings.Join(ls, ", ")+`]`)
 			}
-			dp = append(dp, `"content": `+renderJSON(bl.Body))
+			dp = append(dp, `"content": `+renderJSON(bl.Body, arr))
 			if _, ok := dyn[bl.Type]; !ok {
 				dorder = append(dorder, bl.Type)
 			}
 			dyn[bl.Type] = append(dyn[bl.Type], "{"+strings.Join(dp, ", ")+"}")
 			continue
 		}
-		body := renderJSON(bl.Body)
+		body := renderJSON(bl.Body, arr)
 		for i := len(bl.Labels) - 1; i >= 0; i-- {
 			body = "{" + jstr(bl.Labels[i]) + ": " + body + "}"
 		}
@@ -743,12 +766,21 @@ func renderJSON(b BodyM) string {
 		}
 		parts = append(parts, `"dynamic": {`+strings.Join(dp, ", ")+"}")
 	}
+	if arr > 0 && len(parts) >= 2 {
+		// first object gets all but the last one or two properties (parsers
+		// grow their slices 1,2,4,8: 3 and 5-7 leave spare capacity)
+		cut := len(parts) - 1
+		if arr == 2 && len(parts) >= 3 {
+			cut = len(parts) - 2
+		}
+		return "[{" + strings.Join(parts[:cut], ", ") + "}, {" + strings.Join(parts[cut:], ", ") + "}]"
+	}
 	return "{" + strings.Join(parts, ", ") + "}"
 }
 
 func (f FileM) Source() string {
 	if f.Syntax == "json" {
-		return renderJSON(f.Body) + "\n"
+		return renderJSON(f.Body, f.JSONArray) + "\n"
 	}
 	return renderNative(f.Body, "")
 }
